@@ -1544,7 +1544,8 @@ class Bits:
             # Removes the offset and truncates to length
             return self._bitstore.getslice(0, len(self))._bitarray
         else:
-            return self._bitstore._bitarray
+            # Return a copy, as changes made to the returned bitarray must not affect this (possibly immutable) bitstring.
+            return self._bitstore._bitarray.copy()
 
     def tofile(self, f: BinaryIO) -> None:
         """Write the bitstring to a file object, padding with zero bits if needed.
